@@ -774,6 +774,84 @@ fn explore(run: &Run, label: &str, m: Tracker, depth: usize) -> Outcome {
     Outcome { states, transitions: t, depth: maxd, ambiguous: ambiguous.load(Ordering::Relaxed) }
 }
 
+/// Lasso-shaped histories: every periodic word of period <= `period` over the alphabet, repeated up to `length`
+/// events, executed on real + model with all oracles (adds depth far beyond the BFS/DFS bound along structured paths:
+/// accumulation, wrap-around and capacity defects need hundreds of repetitions, not breadth).
+fn lasso(run: &Run, label: &str, m: Tracker, period: usize, length: usize) -> Outcome {
+    use rayon::prelude::*;
+    let n = m.alphabet.len();
+    let mut words: Vec<Vec<usize>> = vec![];
+    for p in 1..=period {
+        let mut idx = vec![0usize; p];
+        loop {
+            // skip words that are repetitions of a shorter word
+            let primitive = (1..p).all(|d| p % d != 0 || !(0..p).all(|i| idx[i] == idx[i % d]));
+            if primitive {
+                words.push(idx.clone());
+            }
+            let mut k = p;
+            while k > 0 {
+                k -= 1;
+                idx[k] += 1;
+                if idx[k] < n {
+                    break;
+                }
+                idx[k] = 0;
+                if k == 0 {
+                    k = usize::MAX;
+                    break;
+                }
+            }
+            if k == usize::MAX {
+                break;
+            }
+        }
+    }
+    let names: Vec<String> = m.alphabet.iter().map(Ev::name).collect();
+    let (prop, rx, range, step) = (m.prop, m.rx, m.range, m.frame_step_ns);
+    let steps = AtomicU64::new(0);
+    let init = m.init_states().remove(0);
+    let bad: Vec<(Vec<usize>, usize, Vec<(u8, String, String, String)>)> = words
+        .par_iter()
+        .filter_map(|w| {
+            let mut s = init.clone();
+            for i in 0..length {
+                steps.fetch_add(1, Ordering::Relaxed);
+                match m.next_state(&s, w[i % w.len()]) {
+                    Some(nx) => s = nx,
+                    None => return None,
+                }
+                s.hist.clear(); // the history is (word, count), not a list
+                if !s.viol.is_empty() {
+                    return Some((w.clone(), i + 1, s.viol.clone()));
+                }
+            }
+            None
+        })
+        .collect();
+    m.found.lock().unwrap().clear();
+    for (w, count, viol) in bad.into_iter().take(50) {
+        let word: Vec<String> = w.iter().map(|a| names[*a].clone()).collect();
+        // replayable: the script is the word repeated
+        let script: Vec<String> = (0..count).map(|i| word[i % word.len()].clone()).collect();
+        for v in viol.into_iter().filter(|v| v.0 == prop) {
+            run.violation(Violation {
+                oracle: v.1.clone(),
+                class: format!("{label}:{}", v.1),
+                input: format!("prop={prop} rx={},{} range={range} step={step} | {}", rx.0, rx.1, script.join(" ; ")),
+                expected: v.2,
+                observed: format!("{} (after {count} events of the periodic word [{}])", v.3, word.join(" ; ")),
+            });
+        }
+    }
+    let t = steps.load(Ordering::Relaxed);
+    run.add("lasso_words", words.len() as u64);
+    run.add("lasso_transitions", t);
+    run.add("transitions", t);
+    run.sample(json!({"model": label, "lasso": true, "period_max": period, "length": length, "words": words.len()}));
+    Outcome { states: t, transitions: t, depth: length, ambiguous: 0 }
+}
+
 fn tracker(alphabet: Vec<Ev>, rx: (f64, f64), range: f64, step: u64, prop: u8) -> Tracker {
     Tracker {
         alphabet,
@@ -825,6 +903,9 @@ pub fn c12(tier: Tier) -> i32 {
             break;
         }
     }
+    let ll = if tier.thorough() { 3000 } else { 1200 };
+    let o = lasso(&run, &format!("C12/lasso/p2x{ll}"), tracker(alphabet_c12(), (35.0, -80.0), 500.0, 1_000_000_000, 12), 2, ll);
+    outs.push(("lasso".into(), o));
     // determinism self-check: same model twice -> same state count
     let again = explore(&run, "C12/repeat/bfs", tracker(alphabet_c12(), (35.0, -80.0), 500.0, 1_000_000_000, 12), depth.min(3));
     let first = explore(&run, "C12/repeat2", tracker(alphabet_c12(), (35.0, -80.0), 500.0, 1_000_000_000, 12), depth.min(3));
@@ -869,6 +950,13 @@ pub fn c13(tier: Tier) -> i32 {
     let rx0 = (35.0, -80.0);
     let o = explore(&run, &format!("C13/deep/d{dd}"), tracker(alphabet_c13_deep(rx0, 2000.0), rx0, 2000.0, 1_000_000_000, 13), dd);
     outs.push(("deep".into(), o));
+    {
+        let ll = if tier.thorough() { 3000 } else { 1200 };
+        let o = lasso(&run, &format!("C13/lasso/p2x{ll}"), tracker(alphabet_c13(rx0, 2000.0, Tier::Quick), rx0, 2000.0, 1_000_000_000, 13), 2, ll);
+        outs.push(("lasso".into(), o));
+        let o = lasso(&run, &format!("C13/lasso-deep/p3x{ll}"), tracker(alphabet_c13_deep(rx0, 2000.0), rx0, 2000.0, 1_000_000_000, 13), 3, ll);
+        outs.push(("lasso-deep".into(), o));
+    }
     // receiver at the antipode of the flight: everything is out of range
     let alpha = alphabet_c13(f1_start, 500.0, tier);
     let o = explore(&run, &format!("C13/rx-antipode/d{}", depth.min(4)), tracker(alpha, antipode, 500.0, 1_000_000_000, 13), depth.min(4));
@@ -891,6 +979,13 @@ pub fn c14(tier: Tier) -> i32 {
     let dd = if tier.thorough() { 8 } else { 6 };
     let o = explore(&run, &format!("C14/deep/d{dd}"), tracker(alphabet_c13_deep(rx, 2000.0), rx, 2000.0, 1_000_000_000, 14), dd);
     outs.push(("deep".into(), o));
+    {
+        let ll = if tier.thorough() { 3000 } else { 1200 };
+        let o = lasso(&run, &format!("C14/lasso/p2x{ll}"), tracker(alphabet_c14(rx), rx, 500.0, 1_000_000_000, 14), 2, ll);
+        outs.push(("lasso".into(), o));
+        let o = lasso(&run, &format!("C14/lasso-deep/p3x{ll}"), tracker(alphabet_c13_deep(rx, 2000.0), rx, 2000.0, 1_000_000_000, 14), 3, ll);
+        outs.push(("lasso-deep".into(), o));
+    }
     finish(
         run,
         &outs,
@@ -909,6 +1004,9 @@ pub fn c15(tier: Tier) -> i32 {
     for t in [10u64, 1, 0] {
         let o = explore(&run, &format!("C15/T{t}/d{depth}"), tracker(alphabet_c15(t), (35.0, -80.0), 500.0, 0, 15), depth);
         outs.push((format!("T{t}"), o));
+        let ll = if tier.thorough() { 600 } else { 200 };
+        let o = lasso(&run, &format!("C15/T{t}/lasso/p3x{ll}"), tracker(alphabet_c15(t), (35.0, -80.0), 500.0, 0, 15), 3, ll);
+        outs.push((format!("T{t}-lasso"), o));
     }
     finish(run, &outs, vec!["time only moves through explicit wait events (frames are instantaneous) so that the boundary T - 1 ns / T is hit exactly".into()])
 }
